@@ -110,6 +110,7 @@ Definition B_USE_FREED := 3.       (* an action touches an object that was destr
 Definition B_FIND_FREED := 4.      (* a find returned a destroyed object (stale id in the map) *)
 Definition B_SOCK_FREED := 5.      (* ctx_fini after the socket was destroyed *)
 Definition B_DOUBLE_REAP := 6.     (* an endpoint is handed to the reaper twice *)
+Definition B_ORDER := 7.           (* a step of a teardown sequence ran before the step the C code places before it *)
 
 Record st := mkSt {
   sk : sockst; ctxs : list ctxst; eps : list epst; pipes : list pipest;
@@ -487,6 +488,7 @@ Definition run_act (fx : fixes) (s : st) (a : act) : option (st * list act) :=
       match nth_error (eps s) e with
       | Some x =>
           if e_freed x then Some (add_bad s B_USE_FREED, [])
+          else if negb (e_closed x) then Some (add_bad s B_ORDER, [])      (* only ever called by nni_dialer_close after d_closed was set *)
           else if e_onlist x then Some (set_eps s (upd (eps s) e (fun x => eset_onlist x false)), [])
           else Some (add_bad s B_NOT_ONLIST, [])
       | None => Some (s, [])
@@ -548,7 +550,12 @@ Definition run_act (fx : fixes) (s : st) (a : act) : option (st * list act) :=
       | Some x => if p_busy x =? 0 then Some (set_pipes s (upd (pipes s) p pset_stopped), []) else None
       | None => Some (s, [])
       end
-  | APipeRemove p => Some (set_pipes s (upd (pipes s) p pset_unlist), [])          (* nni_pipe_remove *)
+  | APipeRemove p =>                                                               (* nni_pipe_remove *)
+      match nth_error (pipes s) p with
+      | Some x => if p_inmap x then Some (add_bad (set_pipes s (upd (pipes s) p (fun x => pset_unlist (pset_unmap x)))) B_ORDER, [])   (* pipe_reap removes the id first *)
+                  else Some (set_pipes s (upd (pipes s) p pset_unlist), [])
+      | None => Some (s, [])
+      end
   (* ---- operations ---- *)
   | ASubmit None a0 blocks =>
       if k_freed k then Some (add_bad s B_USE_FREED, [])
